@@ -11,7 +11,8 @@ Layers (kept apart on purpose):
         innermost stone/backends frame, never the message);
     (b) lexical scan of EVERY emitted file (Swift: nested block comments, line comments, strings with escapes
         and `\\( )` interpolation, `\"\"\"` strings; Objective-C: `//`, `/* */`, "..." and @"..." strings with escapes,
-        character literals, preprocessor lines) -> balanced `{} [] ()`, terminated strings and comments;
+        character literals, preprocessor lines) -> balanced `{} [] ()`, terminated strings and comments, every
+        conditional directive closed by its #endif;
     (c) declaration scan -> exactly-once and coverage against an independent reading of the IR (as the backends
         see it: after `remove_aliases_from_api`), and closure: every user-level type name that occurs in code
         (qualified `Ns.Name`, unqualified capitalised identifiers, `DBX...` / `DB<NS>...` names) is declared
@@ -69,18 +70,46 @@ OC_STYLE_TO_REQUEST = {'rpc': 'DBRpcTask', 'upload': 'DBUploadTask', 'download_u
                        'download_data': 'DBDownloadDataTask'}
 MODULE, CLASS, TRANSPORT = 'ApiBase', 'ApiClientBase', 'ApiTransportClient'
 
+# a second set of client options: one upload variant, the argument-less download variant first, other request names
+SW_CLIENT_ARGS_ALT = {
+    'upload': [['upload', [['input', '.stream(input)', 'InputStream', 'The stream to upload.']]]],
+    'download': [['download_memory', []],
+                 ['download_file', [['destination', 'destination', 'URL', 'Where to store the download.']]]],
+}
+SW_STYLE_TO_REQUEST_ALT = {'rpc': 'RpcTask', 'upload': 'UpTask', 'download_file': 'DownFileTask',
+                           'download_memory': 'DownMemTask'}
+OC_CLIENT_ARGS_ALT = {
+    'upload': [['upload', ['Stream', [['inputStream', 'inputStream', 'NSInputStream *', 'The stream to upload.']]]]],
+    'download': [['download_data', ['Data', []]],
+                 ['download_url', ['Url', [['overwrite', 'overwrite', 'BOOL', 'Overwrite.'],
+                                           ['outputUrl', 'outputUrl', 'NSURL *', 'Destination.']]]]],
+}
+OC_STYLE_TO_REQUEST_ALT = {'rpc': 'DBRpcJob', 'upload': 'DBUploadJob', 'download_url': 'DBDownloadUrlJob',
+                           'download_data': 'DBDownloadDataJob'}
+CLIENT_TABLES = {
+    'std': dict(sw_args=SW_CLIENT_ARGS, sw_req=SW_STYLE_TO_REQUEST, oc_args=OC_CLIENT_ARGS, oc_req=OC_STYLE_TO_REQUEST),
+    'alt': dict(sw_args=SW_CLIENT_ARGS_ALT, sw_req=SW_STYLE_TO_REQUEST_ALT, oc_args=OC_CLIENT_ARGS_ALT,
+                oc_req=OC_STYLE_TO_REQUEST_ALT),
+}
 
-def runs_for(sw_auth=None, oc_auth='user'):
-    """[(key, backend module, args)] -- the six invocations of the property"""
-    sw = ['-m', MODULE, '-c', CLASS, '-t', TRANSPORT, '-y', json.dumps(SW_CLIENT_ARGS), '-z',
-          json.dumps(SW_STYLE_TO_REQUEST)] + (['-w', sw_auth] if sw_auth else [])
-    oc = ['-m', MODULE, '-c', CLASS, '-t', TRANSPORT, '-y', json.dumps(OC_CLIENT_ARGS), '-z',
-          json.dumps(OC_STYLE_TO_REQUEST), '-w', oc_auth]
+
+def client_tables(opts):
+    return CLIENT_TABLES[(opts or {}).get('client_args') or 'std']
+
+
+def runs_for(sw_auth=None, oc_auth='user', opts=None):
+    """[(key, backend module, args)] -- the six invocations of the property (+ companions, see below). `opts`:
+    client_args ('std' | 'alt': which client tables), oc_e (obj_c_types --exclude-from-analysis)"""
+    T = client_tables(opts)
+    sw = ['-m', MODULE, '-c', CLASS, '-t', TRANSPORT, '-y', json.dumps(T['sw_args']), '-z',
+          json.dumps(T['sw_req'])] + (['-w', sw_auth] if sw_auth else [])
+    oc = ['-m', MODULE, '-c', CLASS, '-t', TRANSPORT, '-y', json.dumps(T['oc_args']), '-z',
+          json.dumps(T['oc_req']), '-w', oc_auth]
     runs = [('swift_types', 'swift_types', []),
             ('swift_types_objc', 'swift_types', ['--objc']),
             ('swift_client', 'swift_client', sw),
             ('swift_client_objc', 'swift_client', sw + ['--objc']),
-            ('obj_c_types', 'obj_c_types', []),
+            ('obj_c_types', 'obj_c_types', ['-e'] if (opts or {}).get('oc_e') else []),
             ('obj_c_client', 'obj_c_client', oc)]
     if sw_auth == 'app':
         # the app-auth client refers to request wrappers that the user-auth run of the same backend declares
@@ -352,6 +381,24 @@ def lex_objc(text):
     b = _balance(toks)
     if b:
         problems.append(b)
+    # conditional directives open and close a region like a comment does: every #if / #ifdef / #ifndef has its #endif
+    cond = []
+    for t in toks:
+        if t.kind != 'pp':
+            continue
+        if t.text in ('#if', '#ifdef', '#ifndef'):
+            cond.append(t)
+        elif t.text in ('#else', '#elif') and not cond:
+            problems.append(('unbalanced-conditional', t.text, t.line, t.col))
+            break
+        elif t.text == '#endif':
+            if not cond:
+                problems.append(('unbalanced-conditional', t.text, t.line, t.col))
+                break
+            cond.pop()
+    else:
+        if cond:
+            problems.append(('unterminated-conditional', cond[-1].text, cond[-1].line, cond[-1].col))
     return toks, problems
 
 
@@ -934,6 +981,7 @@ def expected_items(key, ir, nm, opts):
                       what=what, count=count))
 
     sw_auth, oc_auth = opts.get('sw_auth'), opts.get('oc_auth', 'user')
+    T = client_tables(opts)
     for ns in ir.nss:
         nsn = ns['name']
         N, RN = nm.s_class(nsn), nm.rs_class(nsn)
@@ -979,7 +1027,7 @@ def expected_items(key, ir, nm, opts):
             add('', 'class', [], C, [], RC, 'routes of namespace %s' % nsn)
             for r in valid:
                 w = 'route %s.%s:%d' % (nsn, r['name'], r['version'])
-                variants = SW_CLIENT_ARGS.get(r['style'], [None])
+                variants = T['sw_args'].get(r['style'], [None])
                 if not objc:
                     add('', 'func', [C], nm.s_func(r['name'], r['version']), [RC], nm.rs_func(r['name'], r['version']),
                         w, count=len(variants))
@@ -995,7 +1043,7 @@ def expected_items(key, ir, nm, opts):
                     if not (sw_auth == 'app' and r['auth'] != 'app'):
                         seen = set()
                         for ad in variants:
-                            req = SW_STYLE_TO_REQUEST[ad[0] if ad else r['style']]
+                            req = T['sw_req'][ad[0] if ad else r['style']]
                             ver = ('V%d' % r['version']) if r['version'] > 1 else ''
                             nme = 'DBX' + N + nm.s_class(r['name']) + req + ver
                             rnme = 'DBX' + RN + nm.rs_class(r['name']) + req + ver
@@ -1051,7 +1099,7 @@ def expected_items(key, ir, nm, opts):
                 ver = ('V%d' % r['version']) if r['version'] != 1 else ''
                 base, rbase = nm.o_var(r['name']) + ver, nm.ro_var(r['name']) + ver
                 mult = 2 if _struct_has_defaults(ir, r['arg']) else 1
-                for ad in OC_CLIENT_ARGS.get(r['style'], [None]):
+                for ad in T['oc_args'].get(r['style'], [None]):
                     suffix = ad[1][0] if ad else ''
                     per[(base + suffix, rbase + suffix)] += mult
                     whatof[(base + suffix, rbase + suffix)] = 'route %s.%s:%d' % (nsn, r['name'], r['version'])
@@ -1069,7 +1117,7 @@ def expected_items(key, ir, nm, opts):
             if valid:
                 add('', 'var', [C], nm.s_var(ns['name']), [C], nm.rs_var(ns['name']),
                     'client member for namespace %s' % ns['name'])
-            bg += [(ns, r) for r in valid if r['style'] in SW_CLIENT_ARGS]
+            bg += [(ns, r) for r in valid if r['style'] in T['sw_args']]
         if bg:
             B = CLASS + 'RequestBox'
             add('', 'extension' if objc else 'enum', [], B, [], B, 'request box')
@@ -1134,24 +1182,26 @@ def builtin_names(lang):
         for f in ('swift.py', 'swift_helpers.py', 'swift_types.py', 'swift_client.py'):
             for s in _py_string_constants(os.path.join(bdir, f)):
                 names.update(re.findall(r'[A-Za-z_][A-Za-z0-9_]*', s))
-        for d in (SW_CLIENT_ARGS,):
+        for d in (SW_CLIENT_ARGS, SW_CLIENT_ARGS_ALT):
             for variants in d.values():
                 for v in variants:
                     for a in v[1]:
                         for s in a[:3]:
                             names.update(re.findall(r'[A-Za-z_][A-Za-z0-9_]*', s))
         names.update(SW_STYLE_TO_REQUEST.values())
+        names.update(SW_STYLE_TO_REQUEST_ALT.values())
         names.update([TRANSPORT, 'DBX' + TRANSPORT])
     else:
         for f in ('obj_c.py', 'obj_c_helpers.py', 'obj_c_types.py', 'obj_c_client.py'):
             for s in _py_string_constants(os.path.join(bdir, f)):
                 names.update(re.findall(r'[A-Za-z_][A-Za-z0-9_]*', s))
-        for variants in OC_CLIENT_ARGS.values():
+        for variants in list(OC_CLIENT_ARGS.values()) + list(OC_CLIENT_ARGS_ALT.values()):
             for v in variants:
                 for a in v[1][1]:
                     for s in a[:3]:
                         names.update(re.findall(r'[A-Za-z_][A-Za-z0-9_]*', s))
         names.update(OC_STYLE_TO_REQUEST.values())
+        names.update(OC_STYLE_TO_REQUEST_ALT.values())
         names.update([TRANSPORT, TRANSPORT + 'Protocol', MODULE])
     _builtin_cache[lang] = names
     return names
@@ -1384,6 +1434,7 @@ def swift_closure(ir, nm, outputs, decls_by_key, alias_names=()):
     inside = collections.defaultdict(set)          # top-level class -> names declared anywhere inside
     direct = collections.defaultdict(lambda: collections.defaultdict(set))   # top-level class -> kind -> names
     cases = collections.defaultdict(set)           # (top, enum) -> case names
+    members = collections.defaultdict(set)         # (top, nested type) -> names declared in it
     for key, decls in decls_by_key.items():
         for d in decls:
             if not d['scope']:
@@ -1394,6 +1445,8 @@ def swift_closure(ir, nm, outputs, decls_by_key, alias_names=()):
                     direct[d['scope'][0]][d['kind']].add(d['name'])
                 if d['kind'] == 'case' and len(d['scope']) == 2:
                     cases[(d['scope'][0], d['scope'][1])].add(d['name'])
+                if len(d['scope']) == 2:
+                    members[(d['scope'][0], d['scope'][1])].add(d['name'])
     ns_classes = {nm.s_class(ns['name']) for ns in ir.nss} & top
     member_vocab = set()
     for ns in ir.nss:
@@ -1423,9 +1476,12 @@ def swift_closure(ir, nm, outputs, decls_by_key, alias_names=()):
                         cur_top = d['name']
                         break
                 if prev is not None and prev.kind == 'punct' and prev.text == '.':
-                    # qualified by a namespace class?
+                    # qualified by a namespace class? (not when the enclosing namespace class declares a type of that
+                    # very name -- `enum TeamLog` in namespace auth beside a namespace team_log: inside `Auth` the
+                    # nested type shadows the top-level class, `TeamLog.x` is one of its cases)
                     if i >= 2 and toks[i - 2].kind == 'id' and toks[i - 2].text in ns_classes and \
-                            not (i >= 3 and toks[i - 3].text == '.'):
+                            not (i >= 3 and toks[i - 3].text == '.') and \
+                            not (cur_top is not None and t.text in members[(cur_top, toks[i - 2].text)]):
                         A = toks[i - 2].text
                         if _CAP.match(t.text):
                             ok = t.text in direct[A]['class'] or t.text in direct[A]['enum'] or t.text in direct[A]['struct']
@@ -1541,7 +1597,9 @@ IGNORED_NAMES = {
 }
 
 
-def swift_refs(toks, lo, hi, ns_classes, routes_classes, builtin, drop=None):
+def swift_refs(toks, lo, hi, ns_classes, routes_classes, builtin, drop=None, shadow=None):
+    """`shadow`: {type declared inside the enclosing top-level class: its members} -- a nested type named like a
+    namespace class shadows it there (`TeamLog.x` inside `Auth` that declares `enum TeamLog` with a case x)"""
     out = set()
     for i in range(lo, min(hi, len(toks))):
         t = toks[i]
@@ -1550,6 +1608,7 @@ def swift_refs(toks, lo, hi, ns_classes, routes_classes, builtin, drop=None):
         prev = toks[i - 1] if i > 0 else None
         if prev is not None and prev.text == '.' and prev.kind == 'punct':
             if i >= 2 and toks[i - 2].kind == 'id' and toks[i - 2].text in ns_classes and \
+                    t.text not in (shadow or {}).get(toks[i - 2].text, ()) and \
                     not (i >= 3 and toks[i - 3].text == '.') and t.text not in ('self', 'init'):
                 out.add(toks[i - 2].text + '.' + t.text)
             continue
@@ -1583,6 +1642,10 @@ def compact(key, decls, tokens, ir, nm, opts):
     for ns in ir.nss:
         routes_classes.add(nm.s_class(ns['name'] + suffix) + 'Routes')
     out = []
+    nested = collections.defaultdict(lambda: collections.defaultdict(set))     # top -> nested type -> members
+    for d in decls:
+        if len(d['scope']) == 2:
+            nested[d['scope'][0]][d['scope'][1]].add(d['name'])
     for d in decls:
         if d['kind'] not in COMPARED[key] or d['name'] in IGNORED_NAMES[key]:
             continue
@@ -1593,8 +1656,9 @@ def compact(key, decls, tokens, ir, nm, opts):
             continue
         toks = tokens[d['file']]
         if swift:
+            top = d['scope'][0] if d['scope'] else d['name']
             refs = swift_refs(toks, d['lo'], d['hi'], ns_classes, routes_classes, builtin,
-                              drop=d['name'] if not d['scope'] else None)
+                              drop=d['name'] if not d['scope'] else None, shadow=nested[top])
             if d['kind'] == 'class' and not d['scope'] and d['name'] in ns_classes and key == 'swift_types':
                 refs = []                               # the namespace container: everything is inside
         else:
@@ -1612,7 +1676,7 @@ def compact(key, decls, tokens, ir, nm, opts):
 # ======================================================================================================
 
 STYLES = ('rpc', 'rpc', 'upload', 'download')
-AUTHS = ('user', 'user', 'app', 'team', 'noauth', 'app, user', 'user, team')
+AUTHS = ('user', 'user', 'app', 'team', 'noauth', 'app, user', 'user, team', 'user, app', 'team, app', 'app, user, team')
 
 
 def add_route_schema(model, rng):
@@ -1784,6 +1848,16 @@ def gen_case(seed, family):
         spice_text(model, rng, findings=(family == 'text_findings'))
     specs = sg.render(model, None)
     opts = {'sw_auth': 'app' if rng.random() < 0.2 else None, 'oc_auth': rng.choice(('user', 'user', 'app', 'team'))}
+    # further options (drawn after the others, so that the specs and the two options above stay what they were)
+    r = rng.random()
+    if opts['sw_auth'] is None and r < 0.3:
+        opts['sw_auth'] = 'user' if r < 0.15 else 'team'
+    if rng.random() < 0.12:
+        opts['oc_auth'] = 'noauth'
+    if rng.random() < 0.3:
+        opts['oc_e'] = True
+    if rng.random() < 0.2:
+        opts['client_args'] = 'alt'
     return {'suite': 'decl.swift.spec', 'origin': 'gen:%s:%s' % (family, seed), 'specs': [list(x) for x in specs],
             'opts': opts}
 
@@ -1819,6 +1893,214 @@ def seed_cases():
 
 
 # ======================================================================================================
+# 9b. the grid: every type shape x every position it can occur in (deterministic, no random draws)
+# ======================================================================================================
+# The random families reach a type-directed branch of the backends only when a draw happens to put the right shape
+# into the right position. The grid does it on every run: one block of definitions per SHAPE that puts the shape
+# into every POSITION the six invocations format it in --
+#   required / optional struct field, field inherited by a child (initialiser arguments of the child), field of a
+#   route's argument struct (client signatures, with and without the optional arguments), union tag, nullable union
+#   tag, inherited union tag, and directly as route argument / result / error (user-defined shapes in the same
+#   block, the others in `exotic` specs of their own: obj_c_client and, for errors, swift_client --objc are known to
+#   stop there, the remaining invocations go on).
+# Shapes known to stop a backend (listed findings) are `solo`: a block of their own, so that they do not hide the
+# neighbours. Both namespaces declare an `Item` (one name, two namespaces).
+
+GRID_OTHER = """namespace other
+
+struct Thing
+    label String
+
+struct Item
+    "Same name as g.Item."
+    code Int64
+
+union Pick
+    first
+    second Thing
+
+struct Root
+    union_closed
+        twig Twig
+    rid String
+
+struct Twig extends Root
+    tw Int32
+"""
+
+GRID_HELPERS = """namespace g
+
+import other
+
+struct Item
+    id String
+
+struct Child extends Item
+    extra Int32 = 7
+
+struct Grand extends Child
+    "Two levels below Item."
+    g3 List(Item)?
+
+struct Base
+    union
+        leaf1 Leaf1
+        leaf2 Leaf2
+    bid String
+
+struct Leaf1 extends Base
+    l1 Int32
+
+struct Leaf2 extends Base
+    l2 String?
+
+union Choice
+    a
+    b String
+
+union ChoiceExt extends Choice
+    c Item
+
+union_closed Sealed
+    on
+    off
+
+struct Empty
+    "No fields."
+
+struct AllOpt
+    "Only optional fields."
+    x String?
+    y Int32 = 3
+    z Sealed = on
+
+"""
+
+# (type expression, flags): u = user-defined (may be a route type without being exotic), s = solo (a listed finding
+# stops one of the invocations on it). Void is the `plain` tag of every block (an explicit Void tag is not accepted).
+GRID_SHAPES = [
+    ('Boolean', ''), ('Bytes', ''), ('Float32', ''), ('Float64', ''), ('Int32', ''), ('Int64', ''), ('UInt32', ''),
+    ('UInt64', ''), ('String', ''), ('Timestamp("%Y-%m-%d")', ''),
+    ('String(min_length=1, max_length=9, pattern="[a-z]+")', ''), ('Int64(min_value=-5, max_value=5)', ''),
+    ('Float64(min_value=0.5)', ''), ('UInt32(max_value=10)', ''),
+    ('Item', 'u'), ('Child', 'u'), ('Base', 'u'), ('Leaf1', 'u'), ('Leaf2', 'u'), ('Grand', 'u'), ('Choice', 'u'),
+    ('ChoiceExt', 'u'), ('Sealed', 'u'), ('Empty', 'u'), ('AllOpt', 'u'),
+    ('other.Thing', 'u'), ('other.Item', 'u'), ('other.Pick', 'u'), ('other.Root', 'u'), ('other.Twig', 'u'),
+    ('List(String)', ''), ('List(Bytes)', ''), ('List(Timestamp("%a, %d %b %Y"))', ''), ('List(Boolean)', ''),
+    ('List(Int32)', ''), ('List(Int64)', ''), ('List(UInt32)', ''), ('List(UInt64)', ''), ('List(Float32)', ''),
+    ('List(Float64)', ''), ('List(Item)', ''), ('List(Child)', ''), ('List(Base)', ''), ('List(Leaf2)', ''),
+    ('List(Choice)', ''), ('List(other.Thing)', ''), ('List(other.Pick)', ''), ('List(other.Root)', ''),
+    ('List(String?)', ''), ('List(Int32?)', ''), ('List(Boolean?)', ''), ('List(Item?)', ''), ('List(Choice?)', ''),
+    ('List(String, min_items=1, max_items=3)', ''), ('List(Int64(min_value=1), max_items=2)', ''),
+    ('List(List(String))', 's'), ('List(List(Int32))', ''), ('List(List(Boolean))', ''), ('List(List(Item))', ''),
+    ('List(List(Choice))', ''), ('List(List(Base))', ''), ('List(List(Int64?))', ''), ('List(List(Item)?)', ''),
+    ('List(List(List(UInt64)))', ''), ('List(List(List(List(Int32))))', ''), ('List(List(List(List(Item))))', ''),
+    ('List(List(List(other.Thing)))', ''), ('List(List(List(Bytes)))', 's'),
+    ('List(Map(String, Item))', ''), ('List(Map(String, Int32))', ''), ('List(Map(String, Base))', ''),
+    ('Map(String, String)', ''), ('Map(String, Int64)', ''), ('Map(String, Boolean)', ''), ('Map(String, Bytes)', ''),
+    ('Map(String, Item)', ''), ('Map(String, Choice)', ''), ('Map(String, other.Thing)', ''),
+    ('Map(String, Base)', 's'), ('Map(String, Item?)', ''), ('Map(String, Int32?)', ''),
+    ('Map(String, List(String))', ''), ('Map(String, List(Int32))', ''), ('Map(String, List(Item))', ''),
+    ('Map(String, Map(String, Item))', ''), ('Map(String, Map(String, Float64))', ''),
+    ('Map(String(pattern="[a-z]+"), List(List(Choice)))', ''),
+]
+GRID_STYLES = ('rpc', 'upload', 'download', 'rpc', 'download', 'upload', 'rpc', None)
+# per option set: auth values under which BOTH clients of the case print the route (the grid is about shapes; the
+# helper route `skipped` carries an auth value that both clients leave out)
+GRID_OPTS = [
+    ({'sw_auth': None, 'oc_auth': 'user'}, ('user', 'app, user', 'user, team', 'noauth', 'team, user, app'), 'app'),
+    ({'sw_auth': 'app', 'oc_auth': 'app', 'oc_e': True}, ('app', 'app, user', 'team, app', 'user, app'), 'user'),
+    ({'sw_auth': 'user', 'oc_auth': 'team'}, ('team', 'user, team', 'app, team', 'team, app'), 'app'),
+    ({'sw_auth': None, 'oc_auth': 'noauth', 'oc_e': True}, ('noauth', 'user, noauth', 'noauth, app'), 'app'),
+    ({'sw_auth': 'team', 'oc_auth': 'user', 'client_args': 'alt'}, ('user', 'noauth', 'user, app', 'team, user'), 'app'),
+]
+
+
+def _grid_attrs(i, k, indent='    '):
+    """attrs of route number i of a spec run with option set k"""
+    style = GRID_STYLES[i % len(GRID_STYLES)]
+    auths = GRID_OPTS[k % len(GRID_OPTS)][1]
+    if style is None and 'user' in auths:
+        return ''                                   # no attrs at all: the defaults of the schema (rpc / user)
+    out = [indent + 'attrs', indent + '    style = "%s"' % (style or 'rpc'),
+           indent + '    auth = "%s"' % auths[i % len(auths)]]
+    if i % 3 == 0:
+        out.append(indent + '    scope = "grid.read"')
+    return '\n'.join(out) + '\n'
+
+
+def grid_block(i, ty, flags, k):
+    """definitions that put shape number i into every position"""
+    L = []
+    void, user, nul = False, 'u' in flags, ty.endswith('?')
+    if not void:
+        L.append('struct Req%d\n    "Holds shape %d."\n    f %s\n        "The shape."\n    tail String\n' % (i, i, ty))
+        if not nul:
+            L.append('struct Opt%d\n    lead String\n    f %s?\n' % (i, ty))
+        L.append('struct Kid%d extends Req%d\n    kid Int32 = 1\n' % (i, i))
+    L.append('union Tag%d\n    t %s\n        "The shape as a tag."\n    plain\n' % (i, ty))
+    if not void and not nul:
+        L.append('union Ntag%d\n    t %s?\n' % (i, ty))
+    L.append('union Ktag%d extends Tag%d\n    more\n' % (i, i))
+    if not void:
+        opt = 'Opt%d' % i if not nul else 'Req%d' % i
+        L.append('route do_use%d(Req%d, %s, Tag%d)\n    "Uses shape %d."\n%s' % (i, i, opt, i, i, _grid_attrs(i, k)))
+        L.append('route do_opt%d:2(%s, Kid%d, Ktag%d)\n%s' % (i, opt, i, i, _grid_attrs(i + 3, k)))
+        L.append('route do_kid%d(Kid%d, Void, Void) deprecated\n%s' % (i, i, _grid_attrs(i + 5, k)))
+        if user:
+            err = ty if i % 2 else 'Tag%d' % i
+            L.append('route do_dir%d(%s, %s, %s)\n%s' % (i, ty, ty, err, _grid_attrs(i + 1, k)))
+    return '\n'.join(L) + '\n'
+
+
+def grid_exotic(which, members, k):
+    """routes that take (`arg`) / return (`res`) / fail with (`err`) the shapes directly"""
+    L = []
+    for i, ty, flags in members:
+        # a user-defined shape is exotic only when nullable (the plain one is a route type of its block)
+        for j, t in enumerate((ty,) if ty.endswith('?') else ((ty + '?',) if 'u' in flags else (ty, ty + '?'))):
+            types = {'arg': (t, 'Void', 'Void'), 'res': ('Void', t, 'Choice' if i % 2 else 'Void'),
+                     'err': ('Item', 'Void', t)}[which]
+            L.append('route do_%s%d%s(%s, %s, %s)\n%s' % (which, i, 'n' if j else '', types[0], types[1], types[2],
+                                                      _grid_attrs(i + 2 * j, k)))
+    return '\n'.join(L) + '\n'
+
+
+def grid_cases(per_spec=6, exotic=True):
+    """the grid as cases; `per_spec` shapes share one spec (solo shapes always stand alone)"""
+    shapes = [(i, ty, fl) for i, (ty, fl) in enumerate(GRID_SHAPES)]
+    groups, cur = [], []
+    for sh in shapes:
+        if 's' in sh[2]:
+            groups.append([sh])
+            continue
+        cur.append(sh)
+        if len(cur) >= per_spec:
+            groups.append(cur)
+            cur = []
+    if cur:
+        groups.append(cur)
+    out = []
+
+    def case(name, text, k):
+        opts, _auths, excluded = GRID_OPTS[k % len(GRID_OPTS)]
+        skipped = 'route skipped(Item, Choice, Void)\n    attrs\n        auth = "%s"\n\n' % excluded
+        out.append({'suite': 'decl.swift.spec', 'origin': 'grid:%s' % name,
+                    'specs': [['g.stone', GRID_HELPERS + skipped + text], ['other.stone', GRID_OTHER],
+                              ['stone_cfg.stone', STONE_CFG]],
+                    'opts': dict(opts)})
+    for k, grp in enumerate(groups):
+        case('types:%s' % ','.join(str(s[0]) for s in grp), ''.join(grid_block(*(s + (k,))) for s in grp), k)
+    if exotic:
+        for n, which in enumerate(('res', 'arg', 'err')):
+            for j, lo in enumerate(range(0, len(shapes), 2 * per_spec)):
+                grp = shapes[lo:lo + 2 * per_spec]
+                k = j + n + 1
+                case('%s:%s' % (which, ','.join(str(s[0]) for s in grp)), grid_exotic(which, grp, k), k)
+    return out
+
+
+# ======================================================================================================
 # 10. one case, evaluated in a worker process
 # ======================================================================================================
 
@@ -1841,7 +2123,7 @@ def eval_case(case, keep_files=False):
     root = tempfile.mkdtemp(prefix='stone-verif-c17-')
     try:
         per = {}
-        for key, backend, args in runs_for(opts.get('sw_auth'), opts.get('oc_auth', 'user')):
+        for key, backend, args in runs_for(opts.get('sw_auth'), opts.get('oc_auth', 'user'), opts):
             out = os.path.join(root, key)
             os.makedirs(out)
             crash = run_backend(api, backend, args, out)
@@ -1874,6 +2156,22 @@ def eval_case(case, keep_files=False):
         res['api'] = aj
         res['stats']['types'] = sum(len(ns['types']) for ns in aj)
         res['stats']['routes'] = sum(len(ns['routes']) for ns in aj)
+        # swift_client refuses, on purpose, a namespace in which two routes get one name (check_route_name_conflict):
+        # names that collide under the naming scheme are outside the property -- when the reference naming confirms
+        # the collision the refusal is counted, not judged
+        clash = False
+        for ns in aj:
+            names = [nm.rs_func(r['name'], r['version']) for r in ns['routes']]
+            clash = clash or len(set(names)) < len(names)
+        if clash:
+            kept = []
+            for what, sig, detail in res['problems']:
+                if sig.get('oracle') == 'completes' and sig.get('exc') == 'RuntimeError' and \
+                        str(sig.get('site', '')).endswith(':check_route_name_conflict'):
+                    res['stats']['not_judged.route_name_conflict'] += 1
+                else:
+                    kept.append((what, sig, detail))
+            res['problems'] = kept
         for key, (files, decls, tokens) in per.items():
             if res['runs'][key]['lex']:
                 continue
@@ -1932,14 +2230,15 @@ def _drive(ck, reqs):
 
 
 def model_opts(key, opts):
+    T = client_tables(opts)
     if key.startswith('swift_client'):
-        ca = [[style, [[v[0], '', [a[:3] for a in v[1]]] for v in variants]] for style, variants in SW_CLIENT_ARGS.items()]
-        st = [[k, v] for k, v in SW_STYLE_TO_REQUEST.items()]
+        ca = [[style, [[v[0], '', [a[:3] for a in v[1]]] for v in variants]] for style, variants in T['sw_args'].items()]
+        st = [[k, v] for k, v in T['sw_req'].items()]
         auth = opts.get('sw_auth')
     else:
         ca = [[style, [[v[0], v[1][0], [a[:3] for a in v[1][1]]] for v in variants]]
-              for style, variants in OC_CLIENT_ARGS.items()]
-        st = [[k, v] for k, v in OC_STYLE_TO_REQUEST.items()]
+              for style, variants in T['oc_args'].items()]
+        st = [[k, v] for k, v in T['oc_req'].items()]
         auth = opts.get('oc_auth', 'user')
     return {'class': CLASS, 'transport': TRANSPORT, 'module': MODULE, 'auth': auth, 'client_args': ca,
             'style_to_request': st}
@@ -2158,6 +2457,17 @@ def _pool_size():
     return max(2, min(8, n // 2))
 
 
+def _measured():
+    """is this run measured by coverage.py (tools/cov.py), or was in-process evaluation asked for (C17_POOL=0)?"""
+    if os.environ.get('C17_POOL') == '0':
+        return True
+    cov = sys.modules.get('coverage')
+    try:
+        return cov is not None and cov.Coverage.current() is not None
+    except Exception:                                         # noqa: BLE001
+        return False
+
+
 def _features(aj):
     """coarse coverage dimensions of an API description"""
     f = collections.Counter()
@@ -2192,18 +2502,30 @@ def _features(aj):
 
 def suite_specs(ck):
     import multiprocessing
-    tasks = [('case', c) for c in seed_cases()]
+    only = [x for x in os.environ.get('C17_ONLY', '').split(',') if x]      # development: seed, grid, gen
+    tasks = [('case', c) for c in seed_cases()] if (not only or 'seed' in only) else []
+    if not only or 'grid' in only:
+        # quick: six shapes share a spec; thorough: additionally one spec per shape (minimal replays)
+        tasks += [('case', c) for c in grid_cases(6)]
+        if ck.tier != 'quick':
+            tasks += [('case', c) for c in grid_cases(1, exotic=False)]
     for fam, n in (('clean', ck.scale(60, 1100)), ('clean_types', ck.scale(40, 800)), ('text', ck.scale(35, 600)),
                    ('text_findings', ck.scale(10, 200)), ('full', ck.scale(25, 450))):
         for _ in range(n):
-            tasks.append(('gen', (ck.rng.getrandbits(32), fam)))
-    ctx = multiprocessing.get_context('fork')
-    with ctx.Pool(_pool_size()) as pool:
-        results = pool.map(_worker, tasks, chunksize=4)
+            draw = ck.rng.getrandbits(32)
+            if not only or 'gen' in only:
+                tasks.append(('gen', (draw, fam)))
+    if _measured():
+        # tools/cov.py measures in-process runs only: evaluate the cases here (slower, same cases, same verdicts)
+        results = [_worker(t) for t in tasks]
+    else:
+        ctx = multiprocessing.get_context('fork')
+        with ctx.Pool(_pool_size()) as pool:
+            results = pool.map(_worker, tasks, chunksize=4)
     reqs, where = [], []
     for i, (case, res) in enumerate(results):
-        fam = (case.get('origin') or '?').split(':')[0] + ':' + (case.get('origin') or '?:?').split(':')[1] \
-            if (case.get('origin') or '').startswith('gen:') else 'seed'
+        org = case.get('origin') or '?:?'
+        fam = ':'.join(org.split(':')[:2]) if org.startswith(('gen:', 'grid:')) else 'seed'
         if 'harness_error' in res:
             ck.broken.append({'kind': 'harness', 'name': 'decl.swift.spec', 'detail': res['harness_error'][-800:]})
             continue
